@@ -17,7 +17,8 @@ MANIFEST = {
     "jsrt": True,
 }
 
-THEOREMS = []
+THEOREMS = ["C07_disabled_not_advertised", "C07_structural_value_disables", "C07_analyse_keeps_disabled",
+            "C07_include_disables_all", "C07_add_field_first", "C07_add_field_consecutive"]
 
 ALTS = [0, 1, "", "zz", None, {"$u": 1}, True, False, {"$a": [1, 2]}, {"$o": {"a": 5, "x": "n"}}, {"$nan": 1}]
 
